@@ -113,38 +113,42 @@ def stale_histories(out, n):
 
 # ----------------------------------------------------------------------------- CLI chains
 
-def write_jobs(d: Path, jobs, offset=0):
+JOB_NAMES = ["wf", "wf", "Order Processing", "a b  c", "wf_1"]     # the CLI derives file names from the job name (spaces -> _)
+
+
+def write_jobs(d: Path, jobs, offset=0, jn="wf"):
     d.mkdir(parents=True, exist_ok=True)
     for i, j in enumerate(jobs):
-        (d / f"job_{offset + i:04d}.json").write_text(json.dumps(P.pv_events(j, offset + i, "wf")))
+        (d / f"job_{offset + i:04d}.json").write_text(json.dumps(P.pv_events(j, offset + i, jn)))
 
 
 def cli_chain(case):
     """returns dict(one=text, chain=text, model_one=..., model_chain=..., errors=[...])"""
     res = dict(errors=[])
     with common.Scratch("c04") as d:
-        jobs, cuts = case["jobs"], case["cuts"]
-        write_jobs(d / "all", jobs)
-        rc, tail = C.run_cli(["-o", str(d / "one"), "pv2puml", "-fp", str(d / "all"), "-jn", "wf", "-om"], d)
+        jobs, cuts, jn = case["jobs"], case["cuts"], case.get("jn", "wf")
+        fn = jn.replace(" ", "_")
+        write_jobs(d / "all", jobs, jn=jn)
+        rc, tail = C.run_cli(["-o", str(d / "one"), "pv2puml", "-fp", str(d / "all"), "-jn", jn, "-om"], d)
         if rc:
             res["errors"].append("one-shot: " + tail[-300:])
         prev, model = 0, None
         for k, c in enumerate(cuts + [len(jobs)]):
-            write_jobs(d / f"chunk{k}", jobs[prev:c], prev)
-            args = ["-o", str(d / f"out{k}"), "pv2puml", "-fp", str(d / f"chunk{k}"), "-jn", "wf", "-om"]
+            write_jobs(d / f"chunk{k}", jobs[prev:c], prev, jn=jn)
+            args = ["-o", str(d / f"out{k}"), "pv2puml", "-fp", str(d / f"chunk{k}"), "-jn", jn, "-om"]
             if model:
                 args += ["-im", str(model)]
             rc, tail = C.run_cli(args, d)
             if rc:
                 res["errors"].append(f"chunk {k}: " + tail[-300:])
                 break
-            model = d / f"out{k}" / "wf_model.json"
+            model = d / f"out{k}" / f"{fn}_model.json"
             prev = c
         last = d / f"out{len(cuts)}"
         for name, p in (("one", d / "one"), ("chain", last)):
-            f = p / "wf.puml"
+            f = p / f"{fn}.puml"
             res[name] = f.read_text() if f.exists() else None
-            m = p / "wf_model.json"
+            m = p / f"{fn}_model.json"
             res["model_" + name] = json.loads(m.read_text()) if m.exists() else None
     return res
 
@@ -236,14 +240,14 @@ Eval vm_compute in (4%nat, idx (fun c => let '(ops, st, tn, o, i) := c in same (
         rnd.shuffle(jobs)
         nch = rnd.choice([2, 2, 3]) if len(jobs) >= 3 else 2
         cuts = sorted(rnd.sample(range(1, len(jobs)), nch - 1))
-        cases.append(dict(rec=rec, jobs=jobs, cuts=cuts))
+        cases.append(dict(rec=rec, jobs=jobs, cuts=cuts, jn=JOB_NAMES[len(cases) % len(JOB_NAMES)]))
     _t0 = _t.time()
     with ThreadPoolExecutor(max_workers=common.NPROC) as ex:
         chains = list(ex.map(cli_chain, cases))
     print("phase cli chains", round(_t.time() - _t0, 1), file=_s.stderr)
     items, other, pre = [], {}, {}
     for k, (c, r) in enumerate(zip(cases, chains)):
-        it = dict(rec=c["rec"], jobs=c["jobs"], variant=0)
+        it = dict(rec=c["rec"], jobs=c["jobs"], variant=0, name=c["jn"])
         if r["errors"]:
             pre[k] = "cli-error:" + r["errors"][0][:80]
         elif r["one"] is None or r["chain"] is None:
@@ -261,6 +265,8 @@ Eval vm_compute in (4%nat, idx (fun c => let '(ops, st, tn, o, i) := c in same (
                     pre[k] = "one-shot-unlexable"
             if canon_model_file(r["model_one"]) != canon_model_file(r["model_chain"]):
                 pre.setdefault(k, "final-model-file-differs-from-one-shot")
+            if any(r[m] is not None and r[m].get("job_name") != c["jn"] for m in ("model_one", "model_chain")):
+                pre.setdefault(k, "model-file-does-not-record-the-job-name")
         items.append(it)
     _t0 = _t.time()
     certs, fails = L.coq_certify(items, want=("c05",), other=other) if okp else ({}, [])
@@ -289,7 +295,7 @@ Eval vm_compute in (4%nat, idx (fun c => let '(ops, st, tn, o, i) := c in same (
             out.known_finding(key)
         elif n_viol < 4:
             n_viol += 1
-            out.violation(dict(kind=kind, key=key, definition=P.show(c["rec"]["d"]), definition_id=c["rec"]["id"], cuts=c["cuts"],
+            out.violation(dict(kind=kind, key=key, definition=P.show(c["rec"]["d"]), definition_id=c["rec"]["id"], cuts=c["cuts"], job_name=c["jn"],
                                n_jobs=len(c["jobs"]), jobs=c["jobs"] if len(c["jobs"]) <= 12 else None,
                                one_shot=chains[k]["one"], chained=chains[k]["chain"], errors=chains[k]["errors"]))
     if okp and (dis or coq_fail or fails) and not out.violations:
